@@ -383,6 +383,36 @@ func runC19(c *core.Ctx) {
 				break
 			}
 		}
+		// … and every accepted entry (password recorded) replaces the permission map, whatever its
+		// perms are: an entry without perms must still wipe the permissions of an earlier definition
+		for _, host := range hosts {
+			var pw []ssa.Instruction
+			an.Instrs(host, func(in ssa.Instruction) {
+				if mu, isMU := in.(*ssa.MapUpdate); isMU && an.LoadedField(mu.Map, "CredentialsStore", "store") {
+					pw = append(pw, in)
+				}
+			})
+			isReplace := func(in ssa.Instruction) bool {
+				mu, isMU := in.(*ssa.MapUpdate)
+				if !isMU || !an.LoadedField(mu.Map, "CredentialsStore", "perms") {
+					return false
+				}
+				_, isMk := mu.Value.(*ssa.MakeMap)
+				return isMk
+			}
+			for _, p := range pw {
+				start := p
+				h := an.Ungated(an.CutSpec{Fn: host, Start: start, GateInstr: isReplace, Sink: func(in ssa.Instruction) bool {
+					if _, isR := in.(*ssa.Return); isR {
+						return true
+					}
+					return in == start // next iteration
+				}})
+				if len(h) > 0 {
+					ok = false
+				}
+			}
+		}
 		c.Result(ok, "C19.b", "INIT", "Load:perms-replaced", c.P.Pos(fn.Pos()),
 			"each entry installs a fresh permission map for its user before adding permissions (last definition wins)",
 			"permissions of a user defined twice are merged instead of replaced (no fresh map is installed per entry before filling)", nil)
